@@ -2,7 +2,7 @@
 // duplicate id/type — which is why this is a separate process: the parent reports such a crash as a
 // violation instead of dying with it) and dumps the live registries through the public API as JSON.
 //
-//   dump <protocol>...   probes every protocol of version.Versions plus the given extra protocols
+//	dump <protocol>...   probes every protocol of version.Versions plus the given extra protocols
 package main
 
 import (
